@@ -12,8 +12,8 @@ def frontData : Data where
   activateAlways := [3]
   compileWrites := [0, 7, 13, 14]
   resetAlways := [13]
-  resetAtZero := [0, 1, 3, 9, 10, 11, 14]
+  resetAtZero := [0, 1, 3, 7, 9, 10, 11, 14]
   mode2DIdx := 11
   mode2DReset := true
-  sfsGuarded := false
+  sfsGuarded := true
 end Scenic.Gen
